@@ -2,6 +2,8 @@ package c04
 
 import (
 	"encoding/json"
+	"strconv"
+	"strings"
 	"testing"
 
 	"go.lstv.dev/util/size"
@@ -10,10 +12,26 @@ import (
 )
 
 // Texts as another process would have written them; the fresh process starts by reading one of them.
-var coldScenarios = []string{"text 5KiB", "text 1 000 kB", "json object", "json string", "json number", "container", "pretty", "new", "bytes"}
+var coldScenarios = []string{"text 5KiB", "text 1 000 kB", "json object", "json string", "json number", "container", "pretty", "new", "bytes",
+	"first reads under DefaultRule 0", "first reads under DefaultRule 1", "first reads under DefaultRule 2", "first reads under DefaultRule 4", "first reads under DefaultRule 7", "first reads under DefaultRule 12", "first reads under DefaultRule 15"}
 
 func coldFirst(scenario string) {
 	var s size.Size
+	if strings.HasPrefix(scenario, "first reads under DefaultRule ") {
+		// DefaultRule is a setting like any other: the process starts reading under another one, which is then put back
+		n, _ := strconv.Atoi(strings.TrimPrefix(scenario, "first reads under DefaultRule "))
+		old := size.DefaultRule
+		size.DefaultRule = size.Rule(n)
+		for _, tx := range []string{`"7 GB"`, `{"value":3,"unit":"MiB"}`, `12345`, `"12345"`} {
+			_ = s.UnmarshalJSON([]byte(tx))
+			var d doc
+			_ = json.Unmarshal([]byte(`{"s":`+tx+`,"l":[`+tx+`]}`), &d)
+		}
+		_ = s.UnmarshalText([]byte("5KiB"))
+		_ = s.UnmarshalText([]byte("5120"))
+		size.DefaultRule = old
+		return
+	}
 	switch scenario {
 	case "text 5KiB":
 		_ = s.UnmarshalText([]byte("5KiB"))
